@@ -45,6 +45,36 @@ func copyDir(src, dst string) error {
 	return exec.Command("cp", "-a", src, dst).Run()
 }
 
+// maskOps renders an operation map (pool or retired list) with the times masked
+// also where they sit inside the base64 payload of a result message, and without
+// the signatures computed over such payloads: an operation created while the
+// log is re-read carries the time of that reading.
+func maskOps(v []byte) string {
+	var ops map[string]*types.Operation
+	if json.Unmarshal(v, &ops) != nil {
+		return maskTimes(v)
+	}
+	var ids []string
+	for id := range ops {
+		ids = append(ids, id)
+	}
+	sort.Strings(ids)
+	var sb strings.Builder
+	for _, id := range ids {
+		o := ops[id]
+		if o == nil {
+			sb.WriteString(id + "=null;")
+			continue
+		}
+		fmt.Fprintf(&sb, "%s={type=%s round=%s event=%s to=%s payload=%s extra=%x msgs=[", id, o.Type, o.DKGIdentifier, o.Event, o.To, maskTimes(o.Payload), o.ExtraData)
+		for _, m := range o.ResultMsgs {
+			fmt.Fprintf(&sb, "(%s %s>%s %s signed=%v %s)", m.Event, m.SenderAddr, m.RecipientAddr, m.DkgRoundID, len(m.Signature) > 0, maskTimes(m.Data))
+		}
+		sb.WriteString("]};")
+	}
+	return sb.String()
+}
+
 // canonSnap renders the durable state canonically with times masked; nested
 // JSON-in-JSON (the fsm_state blob holds base64 dumps) is decoded first.
 func canonSnap(s map[string][]byte) (string, map[string]string) {
@@ -74,6 +104,8 @@ func canonSnap(s map[string][]byte) (string, map[string]string) {
 			}
 		} else if k == offsetKey {
 			txt = fmt.Sprintf("%x", v)
+		} else if k == Topic+"_operations" || k == Topic+"_deleted_operations" {
+			txt = maskOps(v)
 		} else {
 			txt = maskTimes(v)
 		}
@@ -89,6 +121,9 @@ type raceSpec struct {
 	path   string
 	body   []byte
 	msgs   int // messages the tick will see
+	// afterReset: the running process was reset (through its API) to an empty
+	// state database just before; the tick then re-reads the log from its start
+	afterReset bool
 }
 
 func runC14(w *World, tier string) (bool, interface{}) {
@@ -147,6 +182,11 @@ func runC14(w *World, tier string) (bool, interface{}) {
 					spec = &raceSpec{kind: "submit:" + string(preparedOp.Type), method: "POST", path: "/handleProcessedOperationJSON", body: prepared, msgs: k}
 				case "approve":
 					spec = &raceSpec{kind: "approve", method: "POST", path: "/approveDKGParticipation", body: prepared, msgs: k}
+					if w.Tape.Bool(1, 3, "afterReset") {
+						spec.afterReset = true
+						spec.msgs = 1 + w.Tape.Choose(2, "msgsAfterReset")
+						w.Stats.Fault("race-on-a-freshly-reset-process")
+					}
 				case "reset":
 					body, _ := json.Marshal(map[string]interface{}{"new_state_dbdsn": nd.StateDir + "_reset", "use_offset": true, "messages": []string{}})
 					spec = &raceSpec{kind: "reset", method: "POST", path: "/resetState", body: body, msgs: k}
@@ -199,11 +239,18 @@ func raceAndJudge(w *World, nd *HotNode, spec *raceSpec, tier string, n, t int) 
 	}
 	L0 := w.Board.Len()
 	firstMsg := int(offsetOfDir(w, nd))
+	if spec.afterReset {
+		firstMsg = 0
+	}
 	var msgKinds []string
 	for i := firstMsg; i < firstMsg+spec.msgs && i < L0; i++ {
 		msgKinds = append(msgKinds, w.Board.Msgs[i].Event)
 	}
-	pairKey := spec.kind + " x " + strings.Join(msgKinds, ",")
+	kindName := spec.kind
+	if spec.afterReset {
+		kindName += "-after-reset"
+	}
+	pairKey := kindName + " x " + strings.Join(msgKinds, ",")
 	w.Abstract[pairKey] = true
 	restore := func() {
 		if nd.inc != nil {
@@ -215,6 +262,13 @@ func raceAndJudge(w *World, nd *HotNode, spec *raceSpec, tier string, n, t int) 
 		nd.Handle.UnignoreMessages()
 		if err := w.StartNode(nd); err != nil {
 			panic(err)
+		}
+		if spec.afterReset {
+			_ = os.RemoveAll(nd.StateDir + "_pre")
+			body, _ := json.Marshal(map[string]interface{}{"new_state_dbdsn": nd.StateDir + "_pre", "use_offset": true, "messages": []string{}})
+			if rp := w.CallAPI(nd, "reset", "POST", "/resetState", body); !rp.OK() {
+				panic("pre-race reset refused: " + rp.ErrMsg)
+			}
 		}
 	}
 	collect := func(reply *APIResult) raceOutcome {
@@ -418,8 +472,14 @@ func raceAndJudge(w *World, nd *HotNode, spec *raceSpec, tier string, n, t int) 
 				diffs = append(diffs, "board-appends")
 			}
 			sort.Strings(diffs)
-			w.Fail("C14", "not-serializable/"+spec.kind+"/"+strings.Join(diffs, ","),
-				fmt.Sprintf("request %s concurrent with one tick over [%s] (schedule %s): the outcome equals none of the %d serial orders; closest (request after %d messages) differs in %v; pending ops now [%s] vs [%s]", spec.kind, strings.Join(msgKinds, ","), compress(sched), len(serialOut), best, diffs, o.pending, so.pending))
+			where := ""
+			for _, k := range diffs {
+				if a, ok := so.detail[k]; ok && where == "" {
+					where = "; " + k + ": " + firstDiff(a, o.detail[k])
+				}
+			}
+			w.Fail("C14", "not-serializable/"+kindName+"/"+strings.Join(diffs, ","),
+				fmt.Sprintf("request %s concurrent with one tick over [%s] (schedule %s): the outcome equals none of the %d serial orders; closest (request after %d messages) differs in %v; pending ops now [%s] vs [%s]%s", kindName, strings.Join(msgKinds, ","), compress(sched), len(serialOut), best, diffs, o.pending, so.pending, where))
 		}
 	}
 	w.Stats.ProbeN("interleavings-executed", len(schedules))
